@@ -441,8 +441,16 @@ func StoredInHTMLTyped() {
 		"<% hh.Hs[0] = x %>[<%= hh.Hs[0] %>]",
 		"<% hv = x %>[<%= hv %>]",
 		"<% let hv = x %>[<%= hv %>]",
+		// appended to an (empty) list of trusted HTML: refused, dropped, or printed escaped
+		"[<%= he + x %>]",
+		"<% let c = he + x %>[<%= c %>]",
+		"[<%= for (v) in he + x { %><%= v %><% } %>]",
+		"<% let c = he + x %>[<%= c[0] %>]",
+		"<% let c = he + (\"\" + x) %>[<%= for (v) in c { %><%= v %><% } %>]",
 	}
-	in := progs[vrt.Choice(len(progs))]
+	ctx.Set("he", []template.HTML{})
+	k := vrt.Choice(len(progs))
+	in := progs[k]
 	vrt.Note("input", in)
 	got, err := plush.Render(in, ctx)
 	vrt.Note("got", got)
@@ -453,6 +461,10 @@ func StoredInHTMLTyped() {
 	vrt.Assert(len(got) >= 2, "the output contains the literal frame")
 	r := got[1 : len(got)-1]
 	vrt.Assert(safe(r), "a string stored into an HTML-typed container is not emitted verbatim")
+	if k >= 10 && r == "" {
+		vrt.Cover("accepted") // a list of HTML that prints nothing
+		return
+	}
 	vrt.Assert(decodesTo(r, p), "the stored string is printed, escaped")
 	vrt.Cover("accepted")
 }
